@@ -140,6 +140,36 @@ func corpusC02() []*Case {
 		[]Pkg{pk("impl-a", "1.0").prov("virt=1"), pk("impl-b", "2.0").prov("virt=1"), pk("impl-c", "3.0").prov("virt=2"), pk("impl-d", "0.5").prov("virt"),
 			pk("u1", "1", "virt"), pk("u2", "1", "impl-a"), pk("u3", "1", "impl-b"), pk("u4", "1", "virt=2"), pk("u5", "1", "impl-d")},
 		w("u1", "u2"), w("u2", "u1"), w("u1", "u3"), w("u1", "u4"), w("u4", "u1"), w("u1", "u5"), w("u5", "u1"), w("virt", "impl-a"), w("impl-a", "impl-b")))
+	// ---- session 6 ----------------------------------------------------------------------------------------------
+	// C02-F1 through the ORIGIN preference of comparePackages (witness of clause 4 of the wider envelope): z is expanded
+	// before c is chosen (fewer candidates), its dependency y has origin o1, so c=1.0 (origin o1) is preferred for m;
+	// n then needs c=2.0, which the de-duplication by name drops
+	cs = append(cs, single("C02-F1 through the origin preference: siblings with different origins",
+		[]Pkg{pk("m", "1", "z", "c"), pk("n", "1", "c>1.5"), pk("z", "1", "y"), pk("y", "1").origin("o1"), pk("c", "1.0").origin("o1"), pk("c", "2.0").origin("o2")},
+		w("m", "n"), w("n", "m"), w("m"), w("n")))
+	// C02-F1 through a sibling in a pinned repository (the other witness of clause 4)
+	cpin := &Case{Stream: "corpus", Note: "C02-F1 through a pinned sibling: c=1.0 in the repository pinned @edge, c=2.0 not pinned",
+		Archs: []Arch{arch("x86_64", index("", 0, "x86_64", pk("n", "1", "c>1.5"), pk("c", "2.0")), index("edge", 1, "x86_64", pk("c", "1.0")))}}
+	for _, ww := range [][]string{w("c@edge", "n"), w("n", "c@edge"), w("c", "n"), w("n")} {
+		cpin.Runs = append(cpin.Runs, Run{Arch: 0, World: ww})
+	}
+	cs = append(cs, cpin)
+	// inside the wider envelope (Example c02_closed_multi_version_example): four versions of c, a provide shared by two of
+	// them, a versioned dependency and a versioned request, the cycle c=5.0 -> b -> c, a conflict entry
+	cs = append(cs, single("wider envelope: several versions per name, winner chosen every time",
+		[]Pkg{pk("a", "1.0", "c>2", "v"), pk("b", "1.0", "c>=3", "c"), pk("c", "1.0").prov("v=1"), pk("c", "3.0").prov("v=1"),
+			pk("c", "5.0", "b", "!zz").prov("v=2"), pk("c", "4.0_rc1")},
+		w("a", "b", "c<9"), w("b", "a"), w("v", "c"), w("c", "v"), w("c=5.0", "a"), w("a", "c<5"), w("c<5", "a")))
+	// conflict entries: the three ways a result can hold a member excluded by a member's entry (C02-F7 and its two
+	// install_if variants), and the orders in which the entry is honoured (error)
+	cs = append(cs, single("C02-F7 conflict entry read after the excluded package was chosen; versioned entry; entry on a provided name",
+		[]Pkg{pk("a", "1.0", "b", "c"), pk("b", "1.0").prov("vb=1"), pk("c", "1.0", "!b"), pk("c2", "1.0", "!b<2"), pk("c3", "1.0", "!b>2"), pk("c4", "1.0", "!vb"),
+			pk("a2", "1.0", "b", "c2"), pk("a3", "1.0", "b", "c3"), pk("a4", "1.0", "b", "c4"), pk("s", "1.0", "!s").prov("vs"), pk("s2", "1.0", "!vs2").prov("vs2")},
+		w("a"), w("c", "a"), w("a2"), w("c2", "a2"), w("a3"), w("a4"), w("c4", "b"), w("b", "c4"), w("s"), w("s2")))
+	cs = append(cs, single("conflict entries and install_if: an install_if member is excluded by a member's entry; the entry of an install_if member",
+		[]Pkg{pk("w", "1", "x", "a"), pk("a", "1"), pk("x", "1", "!a-doc"), pk("a-doc", "1").iif("a"),
+			pk("w2", "1", "b", "y"), pk("b", "1"), pk("y", "1"), pk("b-doc", "1", "!y").iif("b")},
+		w("w"), w("x", "a"), w("a", "x"), w("w2"), w("y", "b"), w("b", "y")))
 	return cs
 }
 
